@@ -351,6 +351,9 @@ fn names_for(r: &mut Rng, p: &str, pool: &[Vec<u8>]) -> Vec<String> {
     let stripped: String = p.chars().filter(|c| !matches!(c, '{' | '}' | ',' | '*' | '[' | ']' | '?')).collect();
     v.push(stripped.replace(">=", "-").replace("<=", "-").replace(['<', '>'], "-"));
     v.push(format!("{}-1.0", p.chars().take(6).collect::<String>()));
+    if p.contains('{') && p.len() <= 400 {
+        v.extend(opat::joint_names(p).into_iter().take(24));
+    }
     for _ in 0..3 {
         v.push(lossy(&pool[r.below(pool.len())]));
     }
